@@ -327,7 +327,14 @@ func (p *eparser) parsePrimary() (*Expr, error) {
 					return nil, fmt.Errorf("expected bound variable in %q", p.src)
 				}
 				bv := BindVar{Name: n.s}
-				if p.peek().k == "id" {
+				if p.isOp("*") {
+					// pointer-typed bound variable:  forall b *T :: ...
+					p.next()
+					if p.peek().k != "id" {
+						return nil, fmt.Errorf("expected type name after * in %q", p.src)
+					}
+					bv.Type = "*" + p.next().s
+				} else if p.peek().k == "id" {
 					bv.Type = p.next().s
 				}
 				vars = append(vars, bv)
